@@ -43,7 +43,7 @@ class EvalStep(Harness):
         temps = Opaque('temporaries')
         vals = {'registry': reg, 'temporaries': temps, 'now': Opaque('now'), 'use_humanize': I.bool('use_humanize'),
                 'save_previous_result': flag, 'previous_result': prev}
-        ctxv = Struct('Context', [vals.get(f, Opaque(f)) for f in fields])
+        ctxv = make_struct(ex, 'Context', vals)
         # the evaluator's verdict
         k = ex.choose(len(REPLY_VARIANTS) + 1, 'eval_query outcome')
         nv_ = I.real('new_value')
@@ -239,9 +239,9 @@ class ReplyKinds(Harness):
         rv['prefixes'] = Arr([])
         rv['datepatterns'] = Arr([])
         cv = {f: Opaque(f) for f in cf}
-        cv['registry'] = Struct('Registry', [rv[f] for f in rf])
+        cv['registry'] = make_struct(ex, 'Registry', {})
         cv['previous_result'] = none(ex)
-        ctxv = Struct('Context', [cv[f] for f in cf])
+        ctxv = make_struct(ex, 'Context', cv)
         return [ref(ctxv), ref(q)], {'form': form}
 
     def post(self, ex, ctx, outcome):
